@@ -24,10 +24,14 @@ theorem elabMember_constNum {name : String} {e n : IExpr} {τ τ' : ETy} (hc : C
   · split at h
     · rename_i id hl; simp [hl, Layer.isNumeric] at hnum
     · split at h
-      · simp at h; obtain ⟨_, rfl⟩ := h; exact ⟨hconst, swizzleLayer_numeric _ _⟩
+      · split at h
+        · simp at h
+        · simp at h; obtain ⟨_, rfl⟩ := h; exact ⟨hconst, swizzleLayer_numeric _ _⟩
       · simp at h
     · split at h
-      · simp at h; obtain ⟨_, rfl⟩ := h; exact ⟨hconst, swizzleLayer_numeric _ _⟩
+      · split at h
+        · simp at h
+        · simp at h; obtain ⟨_, rfl⟩ := h; exact ⟨hconst, swizzleLayer_numeric _ _⟩
       · simp at h
     · split at h
       · simp at h; obtain ⟨_, rfl⟩ := h; exact ⟨hconst, swizzleLayer_numeric _ _⟩
